@@ -20,7 +20,7 @@ CHECKS = {
 }
 
 POOL_NOTE = "stub transport/protocol/connection (SimConn models HttpConnection: is_open = open && (h2 || !busy), can_share = h2); unit of interleaving = one poll/drop of one future; tokio current-thread scheduler and paused clock trusted"
-POOL_TECH = "deterministic simulation: the real pool between stub endpoints, seeded step lists (issue/poll/cancel/dial/handshake/respond/close/spurious readiness wake-up/panic in the response future/background/clock, finished request futures dropped at completion or kept alive, and - C03/C14/C15/C17/C19 - back-pressure gates on the transport's and the inner service's poll_ready) with fault injection, requests issued readiness-first as tower's Oneshot does, drain + probe phases; invariants at every hand-off and history checks; delta-debugged replay files"
+POOL_TECH = "deterministic simulation: the real pool between stub endpoints, seeded step lists (issue/poll/cancel/dial/handshake/respond/close/spurious readiness wake-up/panic in the response future/background/clock, finished request futures dropped at completion or kept alive, more than a thousand origins, sending through the dereferenced handle, and - C03/C14/C15/C17/C19 - back-pressure gates on the transport's and the inner service's poll_ready) with fault injection, requests issued readiness-first as tower's Oneshot does, drain + probe phases; invariants at every hand-off and history checks; delta-debugged replay files"
 def pool(text, ref):
     return ("poolsim", "exploration", POOL_TECH, text + " Seeded search over schedules and fault sequences, not enumeration: a clean batch is evidence, not proof.", POOL_NOTE, ref)
 CHECKS.update({
@@ -33,8 +33,8 @@ CHECKS.update({
  "C15": ("poolsim+e2eidle",) + pool("After every step: open idle HTTP/1 connections retained per origin, minus those in transit to a pending request that has not been polled since it was woken, never exceeds max_idle_per_host in {0,1,2,k-1,k,k+1}. Second part (e2eidle): the same bound through a real Client built by Client::builder() in every order of the builder calls, real servers and SimNet - 100 ms of virtual time after a burst of k concurrent HTTP/1.1 requests the connections the client still holds are counted.", "DESIGN.md 5 (C15), 4.A, 11")[1:],
  "C17": pool("Panic monitor (process-wide hook + catch_unwind around every call/poll/drop + background tasks) over step lists that include every http::Version constant, upgrades, cancels, service drop.", "DESIGN.md 5 (C17)"),
  "C18": ("iosim+realio", "exploration",
-         "deterministic simulation: writer/reader scripts over each adapter stack on SimNet (seeded chunking, Pending injection, virtual delays, pipe capacity, over-initialising reads, EOF/reset at byte offsets) compared with a reference FIFO; second part (realio): the same seeded writer/reader scripts over hyperdriver's TcpStream / UnixStream (connect, accept, pair), bare, inside Braid inside client/server Stream, and under TLS, carried by real loopback and Unix-domain sockets (fault-free)",
-         "TokioIo in both directions, Rewind, client/server braid Stream (plain and TLS arms, either side writing), duplex transport: bytes received are always a prefix of the position-indexed reference stream, nothing beyond what was offered, EOF after shutdown, resets surface as errors, read-buffer contract (pre-filled bytes untouched, no over-report). Seeded search.",
+         "deterministic simulation: writer/reader scripts over each adapter stack on SimNet (seeded chunking, Pending injection, virtual delays, pipe capacity, over-initialising reads, flush-dependent writers, EOF/reset at byte offsets in either direction) compared with a reference FIFO; second part (realio): the same seeded writer/reader scripts over hyperdriver's TcpStream / UnixStream (connect, accept, pair), bare, inside Braid inside client/server Stream, and under TLS, carried by real loopback and Unix-domain sockets (fault-free)",
+         "TokioIo in both directions, Rewind, client/server braid Stream (plain and TLS arms, either side writing), duplex transport: bytes received are always a prefix of the position-indexed reference stream, nothing beyond what was offered, EOF after shutdown, resets surface as errors, a transport cut under TLS surfaces as an error and never as end-of-stream, read-buffer contract (pre-filled bytes untouched, no over-report). Seeded search.",
          "the TCP/Unix wrappers and Braid arms run over real kernel sockets, where chunking is the kernel's and no fault can be injected; TLS runs with >=32 KiB pipe capacity (smaller socket buffers deadlock any TLS handshake); an endpoint is not used again after it returned an error",
          "DESIGN.md 5 (C18), 4.D"),
  "C19": ("timersim+poolsim+e2etimeout", "exploration",
@@ -49,15 +49,15 @@ def e2e(engine, cat, tech, text, ref, note=E2E_NOTE):
     return (engine, cat, tech, text, note, ref)
 CHECKS.update({
  "C01": e2e("e2esim", "exploration",
-   "deterministic simulation: real client stack and real servers over SimNet (seeded chunking, Pending, virtual delays, EOF/reset at byte offsets, refused dials), seeded request mixes with cancels, redirects (followed or not, per the model of the redirect layer), caller-supplied User-Agent / te: trailers, every order of the builder calls, server-side per-connection services that insist on tower's readiness contract (poll_ready before call, first answer Pending), make-services and client protocols that are not ready the first time they are asked; per-request identity/digest oracle at handler and client",
+   "deterministic simulation: real client stack and real servers over SimNet (seeded chunking, Pending, virtual delays, EOF/reset at byte offsets, refused dials), seeded request mixes with cancels, redirects (followed or not, per the model of the redirect layer), caller-supplied User-Agent / Host / te: trailers, every order of the builder calls, server-side per-connection services that insist on tower's readiness contract (poll_ready before call, first answer Pending), make-services and client protocols that are not ready the first time they are asked; per-request identity/digest oracle at handler and client",
    "Every request carries its id three times (path, header, body pattern); the handler checks what it receives, the client checks status, headers and every body byte of what it gets back, over HTTP/1.1, HTTP/2, TLS+ALPN, pooled reuse, concurrency, upgrades and cancels at every stage. Fault-free runs: every un-cancelled request must succeed; faulty runs: a failure is excused only by a transport fault on a connection of that origin; wrong or truncated data never.",
    "DESIGN.md 5 (C01), 4.B"),
  "C07": e2e("shutdown", "exploration",
-   "deterministic simulation: graceful-shutdown signal at a seeded virtual instant against 0-4 connections in every stage (plain or behind the TLS acceptor; raw HTTP/1 clients that split heads and pipeline, hyper HTTP/2 clients, silent / TLS-stalled clients; http1-only servers also built through with_http1(); connects queued at the instant of the signal; a silent connection whose request the driver writes in the very step that fires the signal); history oracle relative to the signal instant; executor wrapper counts connection tasks and parks a task that wakes itself 100 000 times in a row without any stream operation or time passing (reported as a spin)",
+   "deterministic simulation: graceful-shutdown signal at a seeded virtual instant against 0-4 connections in every stage (plain or behind the TLS acceptor; raw HTTP/1 clients that split heads and pipeline, hyper HTTP/2 clients, silent / TLS-stalled clients; http1-only servers also built through with_http1(); connects queued at the instant of the signal; a silent connection whose request the driver writes in the very step that fires the signal; the serving future consumed or kept alive after completion); history oracle relative to the signal instant; executor wrapper counts connection tasks and parks a task that wakes itself 100 000 times in a row without any stream operation or time passing (reported as a spin)",
    "Serving future Ok(()) exactly at the signal; nothing connected afterwards is served; every request whose handler had started - or, on a plain HTTP/1 connection open at the signal, whose every byte the server has taken off the connection - completes correctly; every connection closed by the server and its task finished within 1 s (5 s with I/O delays) of its last exchange; idle and still-sniffing connections closed. http1 / http2 / auto.",
    "DESIGN.md 5 (C07), 4.B"),
  "C08": e2e("sniff", "fault_enumeration",
-   "deterministic simulation with enumerated fragmentation: every single cut position (all streams) and every pair of cut positions (HTTP/2 preface; all streams in thorough) of the first 32 bytes, byte-at-a-time, plus seeded cut sets with short reads / Pending / delays, and a client that half-closes after a complete request while the handler is still working; differential oracle against plain hyper on the unfragmented stream",
+   "deterministic simulation with enumerated fragmentation: every single cut position (all streams) and every pair of cut positions (HTTP/2 preface; all streams in thorough) of the first 32 bytes, byte-at-a-time, plus seeded cut sets with short reads / Pending / delays, a client that half-closes after a complete request while the handler is still working, and a buffered (flush-dependent) transport under the server; differential oracle against plain hyper on the unfragmented stream",
    "Version seen by the handler is HTTP/2 iff the stream starts with the full preface; the response equals what plain hyper http1 / http2 answers to the same bytes, and the connection never hangs where plain hyper answers or closes; bodies longer than the sniff buffer are verified byte for byte behind the detector.",
    "DESIGN.md 5 (C08), 4.B"),
  "C09": e2e("srvfault", "fault_enumeration",
@@ -66,7 +66,7 @@ CHECKS.update({
    "DESIGN.md 5 (C09), 4.B",
    E2E_NOTE + "; the TCP and Unix acceptors run over real kernel sockets (no seam): only the system-call order is controlled there, accept errors such as EMFILE cannot be injected; handler panics out of scope"),
  "C12": e2e("tlsmode", "fault_enumeration",
-   "deterministic simulation with enumerated scheme x host form x certificate x peer behaviour (incl. the genuine TLS server flight truncated at 40 offsets, closing or stalling) through TlsTransport and through the whole client stack (there also with 1-3 more concurrent HTTP/2 requests behind the same connection attempt), and transport faults (reset / end-of-stream after 0..3000 bytes, either direction) under the handshake; raw first bytes captured at the peer, SNI captured by a recording certificate resolver, certificate validity against a simulated wall clock",
+   "deterministic simulation with enumerated scheme x host form x certificate x peer behaviour (incl. the genuine TLS server flight truncated at 40 offsets, closing or stalling) through TlsTransport and through the whole client stack (there also with 1-3 more concurrent HTTP/2 requests behind the same connection attempt), transport faults (reset / end-of-stream after 0..3000 bytes, either direction) under the handshake, and TLS configured twice on one transport; raw first bytes captured at the peer, SNI captured by a recording certificate resolver, certificate validity against a simulated wall clock",
    "https/wss: the peer's first bytes are a TLS handshake record, SNI = URI host (none for IP literals), success iff the certificate is valid for the URI host and the peer completes a genuine handshake; any failure is an Err with exactly one dial and no request reaching a handler; other schemes go out in clear; no host form panics.",
    "DESIGN.md 5 (C12), 4.B"),
  "C13": e2e("wire", "exploration",
